@@ -168,6 +168,11 @@ def run(facts, rep, ctx):
         rep.violation(R4, rd.name, "label-record", "writer pushes %s, reader interprets %s" % (w["label_push_order"], r["label_read_order"]), "%s:%s" % (rd.file, rd.line))
     for bad_acc in sorted(set(r.get("label_addr_misuse", []))):
         rep.violation(R4, rd.name, "label-at-end:" + bad_acc, "the parser passes a label's address to BinArchive::%s, which rejects address == size: a label at the end of the data cannot be re-parsed (labels may sit at any address <= size)" % bad_acc, "%s:%s" % (rd.file, rd.line))
+    for acc, mode in sorted(set(r.get("label_store", []))):
+        if mode == "replace":
+            rep.violation(R4, rd.name, "label-replace:" + acc, "the label loop stores a label with BinArchive::%s, which replaces the labels already collected for that address: a table that lists one address's labels non-adjacently loses all but the last run" % acc, "%s:%s" % (rd.file, rd.line))
+        else:
+            rep.ok(R4, {"label_store": acc, "mode": mode})
     if r["classify"] == "gt-data-size":
         rep.ok(R4, {"classification": "value > data size => string"})
     elif r["classify"] is None:
@@ -349,6 +354,43 @@ def writer_model(facts, rep, R1, ser):
     return m
 
 
+def label_store_mode(cb):
+    """'append' when the accessor adds to the bucket of its address (inserting a fresh bucket only when there is
+    none), 'replace' when it inserts a bucket whatever was there, None when it does not store labels."""
+    from flow import enum_paths, PathLimit
+    try:
+        paths = enum_paths(cb, max_paths=400)
+    except PathLimit:
+        return None
+    mode = None
+    for p in paths:
+        if p.end != "ret":
+            continue
+        absent = False
+        for (bb, term, vals, neg, dty) in p.conds:
+            if term[0] == "discr":
+                x = strip_refs(term[1])
+                if x[0] == "call" and x[1].rsplit("::", 1)[-1] in ("get_mut", "get", "entry") and x[2]:
+                    r_ = strip_refs(x[2][0])
+                    if r_[0] == "field" and r_[2] == "labels" and ((vals == (0,)) != neg):
+                        absent = True
+            ct = cond_truth((term, vals, neg, dty))
+            if ct and ct[0][0] == "call" and ct[0][1].endswith("contains_key") and not ct[1]:
+                absent = True
+        for e in p.events:
+            if e["k"] == "call" and e["callee"] and e["args"]:
+                sh = e["callee"].rsplit("::", 1)[-1]
+                a0 = strip_refs(e["args"][0])
+                if sh == "insert" and a0[0] == "field" and a0[2] == "labels":
+                    if absent:
+                        mode = mode or "append"
+                    else:
+                        mode = "replace"
+                elif sh == "push" and any(x[0] == "field" and x[2] == "labels" for x in walk(e["args"][0])):
+                    mode = mode or "append"
+    return mode
+
+
 def reader_model(facts, rep, R2, rd):
     nv = rd.named_view()
     idx = rpo_index(nv)
@@ -493,6 +535,18 @@ def reader_model(facts, rep, R2, rd):
             else:
                 m["classify"] = "string when %s, pointer when %s (v = cell value, d = data size)" % (rel_s, rel_p)
         if which == 2:
+            # how each label found in the table is stored: appended to the labels already collected for its address,
+            # or put in place of them
+            for bb2 in lp["blocks"]:
+                t2 = nv.blocks[bb2]["term"]
+                if t2["k"] != "call":
+                    continue
+                nm2 = callee_names(t2)[1] or ""
+                cb2 = facts.body(nm2) if nm2.startswith("mila::bin_archive::BinArchive::") else None
+                if cb2 is not None:
+                    mode = label_store_mode(cb2)
+                    if mode:
+                        m.setdefault("label_store", []).append((nm2.rsplit("::", 1)[-1], mode))
             # roles of the two reads: which one reaches write_label's address, which one the seek
             roles = []
             for bb, t in reads:
